@@ -638,5 +638,145 @@ func vmOutErrorFacts(repo string, fset *token.FileSet) (map[string]string, error
 		return nil, fmt.Errorf("shape not recognised: VM.Run has no `case *PanicError:` clause")
 	}
 	facts["runUnwrapPanicError"] = "String := " + leanStr(unwrap)
+
+	// 4. vm.go / errors.go: while a panic (the writer's error included) unwinds the call stack,
+	//    VM.Run sets vm.fn = nil and nextCall runs the pending deferred calls; a deferred native
+	//    function is called through callNative with vm.fn still nil, and a panic raised there is
+	//    classified by convertPanic/newPanic. Every dereference `vm.fn.<field>` in a function is
+	//    counted as guarded (inside `if … vm.fn != nil … {`, or after `if vm.fn == nil { …; return }`)
+	//    or unguarded.
+	var rows []string
+	for _, f := range []*ast.File{vf, ef} {
+		for _, d := range f.Decls {
+			fd, ok := d.(*ast.FuncDecl)
+			if !ok || fd.Body == nil || fd.Recv == nil {
+				continue
+			}
+			g, u := nilFnDerefs(fset, fd.Body)
+			if g+u > 0 {
+				rows = append(rows, fmt.Sprintf("(%s, %d, %d)", leanStr(fd.Name.Name), g, u))
+			}
+		}
+	}
+	sort.Strings(rows)
+	facts["fnDerefs"] = "List (String × Nat × Nat) := [" + strings.Join(rows, ", ") + "]"
+	// nextCall calls a deferred native function without setting vm.fn
+	nativeFromNextCall := false
+	for _, d := range vf.Decls {
+		fd, ok := d.(*ast.FuncDecl)
+		if !ok || fd.Name.Name != "nextCall" || fd.Body == nil {
+			continue
+		}
+		ast.Inspect(fd.Body, func(n ast.Node) bool {
+			if c, ok := n.(*ast.CallExpr); ok && exprString(fset, c.Fun) == "vm.callNative" {
+				nativeFromNextCall = true
+			}
+			return true
+		})
+	}
+	facts["nextCallCallsNative"] = fmt.Sprintf("Bool := %v", nativeFromNextCall)
 	return facts, nil
+}
+
+// nilFnDerefs counts the dereferences of vm.fn in body: (guarded, unguarded).
+func nilFnDerefs(fset *token.FileSet, body *ast.BlockStmt) (guarded, unguarded int) {
+	isFn := func(e ast.Expr) bool { return strings.ReplaceAll(exprString(fset, e), " ", "") == "vm.fn" }
+	hasConj := func(cond ast.Expr, op token.Token) bool {
+		found := false
+		var walk func(e ast.Expr)
+		walk = func(e ast.Expr) {
+			switch x := e.(type) {
+			case *ast.ParenExpr:
+				walk(x.X)
+			case *ast.BinaryExpr:
+				if x.Op == token.LAND {
+					walk(x.X)
+					walk(x.Y)
+				} else if x.Op == op && isFn(x.X) && exprString(fset, x.Y) == "nil" {
+					found = true
+				}
+			}
+		}
+		walk(cond)
+		return found
+	}
+	terminates := func(b *ast.BlockStmt) bool {
+		if len(b.List) == 0 {
+			return false
+		}
+		switch s := b.List[len(b.List)-1].(type) {
+		case *ast.ReturnStmt:
+			return true
+		case *ast.ExprStmt:
+			if c, ok := s.X.(*ast.CallExpr); ok && exprString(fset, c.Fun) == "panic" {
+				return true
+			}
+		}
+		return false
+	}
+	children := func(n ast.Node, f func(ast.Node)) {
+		first := true
+		ast.Inspect(n, func(c ast.Node) bool {
+			if c == nil {
+				return false
+			}
+			if first {
+				first = false
+				return true
+			}
+			f(c)
+			return false
+		})
+	}
+	var visit func(n ast.Node, g bool)
+	var visitList func(list []ast.Stmt, g bool)
+	visitList = func(list []ast.Stmt, g bool) {
+		for _, s := range list {
+			visit(s, g)
+			if is, ok := s.(*ast.IfStmt); ok && is.Init == nil && is.Else == nil && hasConj(is.Cond, token.EQL) && terminates(is.Body) {
+				if be, ok := is.Cond.(*ast.BinaryExpr); ok && be.Op == token.EQL {
+					g = true
+				}
+			}
+		}
+	}
+	visit = func(n ast.Node, g bool) {
+		switch x := n.(type) {
+		case *ast.BlockStmt:
+			visitList(x.List, g)
+		case *ast.CaseClause:
+			for _, e := range x.List {
+				visit(e, g)
+			}
+			visitList(x.Body, g)
+		case *ast.CommClause:
+			if x.Comm != nil {
+				visit(x.Comm, g)
+			}
+			visitList(x.Body, g)
+		case *ast.IfStmt:
+			if x.Init != nil {
+				visit(x.Init, g)
+			}
+			visit(x.Cond, g)
+			visit(x.Body, g || hasConj(x.Cond, token.NEQ))
+			if x.Else != nil {
+				visit(x.Else, g)
+			}
+		case *ast.SelectorExpr:
+			if isFn(x.X) {
+				if g {
+					guarded++
+				} else {
+					unguarded++
+				}
+				return
+			}
+			children(x, func(c ast.Node) { visit(c, g) })
+		default:
+			children(n, func(c ast.Node) { visit(c, g) })
+		}
+	}
+	visit(body, false)
+	return
 }
